@@ -4,7 +4,7 @@
    while unread bytes remain) over ONE segmentation `chunks` of the stream `concat chunks`; the
    theorems quantify over all segmentations, with no bound on stream length or chunk count. *)
 From OlaBase Require Import Bytes.
-From C10 Require Import Gen Model Lemmas ProofsRecv ProofsUsb ProofsRobe ProofsOpc ProofsAcn ProofsAcnRef Schedule ProofsSched ProofsSchedOpc.
+From C10 Require Import Gen Model Lemmas ProofsRecv ProofsUsb ProofsRobe ProofsOpc ProofsAcn ProofsAcnRef Schedule ProofsSched ProofsSchedOpc ProofsOpcFast ProofsRpc.
 Local Open Scope N_scope.
 
 (* Side obligations: the constants regenerated from the headers are the numbers used by the
@@ -15,7 +15,9 @@ Theorem c10_consts :
   (OPC_HEADER_SIZE, OPC_FRAME_SIZE) = (4, 516) /\
   ACN_HEADER = [65; 83; 67; 45; 69; 49; 46; 49; 55; 0; 0; 0] /\
   (ACN_HEADER_SIZE, ACN_PDU_BLOCK_SIZE, ACN_TWO_BYTES, ACN_THREE_BYTES, ACN_LFLAG_MASK, ACN_LENGTH_MASK,
-   ACN_INITIAL_SIZE) = (12, 4, 2, 3, 128, 15, 500).
+   ACN_INITIAL_SIZE) = (12, 4, 2, 3, 128, 15, 500) /\
+  (RPC_VERSION_MASK, RPC_SIZE_MASK, RPC_PROTOCOL_VERSION, RPC_MAX_BUFFER_SIZE) =
+    (15 * 2 ^ 28, 2 ^ 28 - 1, 1, 2 ^ 20).
 Proof. repeat split; reflexivity. Qed.
 Print Assumptions c10_consts.
 
@@ -89,17 +91,28 @@ Print Assumptions c10_robe_bounds.
    nothing; no store or copy outside the (growing) receive buffer. *)
 Theorem c10_opc_chunk_free : forall (stream : list N) (chunks : list (list N)),
   concat chunks = stream -> bytes_ok stream = true ->
-  exists s, feed o_recv o_init chunks = Done s (ref_opc stream).
-Proof. intros stream chunks H Hb. rewrite <- H in *. exact (opc_chunk_free chunks Hb). Qed.
+  exists f, feed f_recv f_init chunks = Done f (ref_opc stream).
+Proof. intros stream chunks H Hb. rewrite <- H in *. exact (opcf_chunk_free chunks Hb). Qed.
 Print Assumptions c10_opc_chunk_free.
+
+(* f_recv (reversed buffer + offset + cached expected size; the function the correspondence runs) and
+   the plain model o_recv (flat buffer, every branch of SocketReady/CheckSize spelled out) compute the
+   same thing on every call: same deliveries, same unread bytes, same hazard, related states. *)
+Theorem c10_opc_fast_refines : forall f av, f_inv f ->
+  match f_recv f av with
+  | Some (f1, r, o) => o_recv (o_abs f) av = Some (o_abs f1, r, o) /\ f_inv f1
+  | None => o_recv (o_abs f) av = None
+  end.
+Proof. exact f_recv_sim. Qed.
+Print Assumptions c10_opc_fast_refines.
 
 (* In every reachable state the buffer has room for at least one more byte (so SocketReady always
    makes progress) and its capacity never exceeds the largest frame, 65535 + 4. *)
-Theorem c10_opc_bounds : forall chunks s out,
+Theorem c10_opc_bounds : forall chunks f out,
   bytes_ok (concat chunks) = true ->
-  feed o_recv o_init chunks = Done s out ->
-  len (o_data s) < o_cap s /\ o_cap s <= 65539.
-Proof. intros chunks s out Hb H. exact (opc_reachable_bounds chunks s out Hb H). Qed.
+  feed f_recv f_init chunks = Done f out ->
+  f_off f = len (f_rdata f) /\ f_off f < f_cap f /\ f_cap f <= 65539.
+Proof. intros chunks f out Hb H. exact (opcf_reachable_bounds chunks f out Hb H). Qed.
 Print Assumptions c10_opc_bounds.
 
 (* ACN over TCP (IncomingStreamTransport with a consume-all inflator): for every byte stream and
@@ -122,6 +135,18 @@ Theorem c10_acn_bounds : forall chunks s out,
   a_len s <= a_cap s /\ a_cap s <= 2097152 /\ a_len s + a_out s <= a_cap1 s /\ 0 < a_out s.
 Proof. intros chunks s out H Hv. exact (acn_reachable_bounds chunks s out H Hv). Qed.
 Print Assumptions c10_acn_bounds.
+
+(* RPC channel (RpcChannel::DescriptorReady with ReadHeader collecting the 4 header bytes across
+   reads): for every verdict function `ok` of the message parser, every byte stream and EVERY
+   partition, the frames handed to HandleNewMsg that parse (the delivered list) and whether the
+   channel ends up closed are exactly what the reference framer says for the whole stream: empty
+   frames are skipped, a wrong version, a size above 1 MB or an unparsable body closes the channel and
+   nothing after it is delivered, every other frame is delivered whatever preceded it. *)
+Theorem c10_rpc_chunk_free : forall (ok : list N -> bool) (stream : list N) (chunks : list (list N)),
+  concat chunks = stream ->
+  exists s out, feed (p_recv ok) p_init chunks = Done s out /\ (out, p_closed s) = ref_rpc ok stream.
+Proof. intros ok stream chunks H. rewrite <- H. exact (rpc_chunk_free ok chunks). Qed.
+Print Assumptions c10_rpc_chunk_free.
 
 (* Read schedules.  `run_sched` executes an arbitrary interleaving of `Arrive bytes` (data reaches
    the kernel buffer) and `Invoke` (the poller runs the on-data callback; it does so only while
@@ -146,11 +171,11 @@ Proof. exact robe_sched. Qed.
 Print Assumptions c10_schedule_robe.
 
 Theorem c10_schedule_opc : forall es, bytes_ok (arrived es) = true ->
-  (exists s pend out, run_sched ostate o_recv (o_init, [], []) es = Some (s, pend, out) /\
+  (exists f pend out, run_sched fstate f_recv (f_init, [], []) es = Some (f, pend, out) /\
      (pend = [] -> out = ref_opc (arrived es))) /\
-  (exists k s out, run_sched ostate o_recv (o_init, [], []) (es ++ repeat Invoke k) = Some (s, [], out) /\
+  (exists k f out, run_sched fstate f_recv (f_init, [], []) (es ++ repeat Invoke k) = Some (f, [], out) /\
      out = ref_opc (arrived es)).
-Proof. exact opc_sched. Qed.
+Proof. exact opcf_sched. Qed.
 Print Assumptions c10_schedule_opc.
 
 Theorem c10_schedule_acn : forall es,
@@ -169,6 +194,14 @@ Proof.
 Qed.
 Print Assumptions c10_schedule_acn.
 
+Theorem c10_schedule_rpc : forall (ok : list N -> bool) es,
+  (exists s pend out, run_sched pstate (p_recv ok) (p_init, [], []) es = Some (s, pend, out) /\
+     (pend = [] -> (out, p_closed s) = ref_rpc ok (arrived es))) /\
+  (exists k s out, run_sched pstate (p_recv ok) (p_init, [], []) (es ++ repeat Invoke k) = Some (s, [], out) /\
+     (out, p_closed s) = ref_rpc ok (arrived es)).
+Proof. exact rpc_sched. Qed.
+Print Assumptions c10_schedule_rpc.
+
 (* the hypotheses are satisfiable / the statements are not vacuous *)
 Example c10_usbpro_example :
   ref_usb [0; 126; 6; 2; 0; 10; 20; 231; 126; 7; 0; 0; 231; 126; 8; 1; 0; 5; 0] = [(6, [10; 20]); (7, [])] /\
@@ -184,8 +217,8 @@ Example c10_robe_example :
          [(7, [1; 2]); (8, [])].
 Proof. vm_compute; reflexivity. Qed.
 Example c10_opc_example :
-  feed o_recv o_init [[1; 0; 0; 2; 9; 8; 2; 0; 0]; [1; 7; 3]] =
-    Done {| o_data := [3]; o_cap := 516 |} [(256, [9; 8]); (512, [7])].
+  feed f_recv f_init [[1; 0; 0; 2; 9; 8; 2; 0; 0]; [1; 7; 3]] =
+    Done {| f_rdata := [3]; f_off := 1; f_exp := None; f_cap := 516 |} [(256, [9; 8]); (512, [7])].
 Proof. vm_compute; reflexivity. Qed.
 Example c10_acn_example :
   feed a_recv a_init [[65; 83; 67; 45; 69; 49; 46]; [49; 55; 0; 0; 0; 0; 0; 0; 5; 0; 3]; [9; 0; 2; 65]] =
@@ -197,3 +230,9 @@ Example c10_schedule_example :
   run_sched ustate u_recv (u_init, [], []) [Arrive [126; 6]; Invoke; Arrive [1; 0; 9]; Arrive [231; 126]; Invoke; Invoke] =
     Some ({| u_st := U_LABEL; u_label := 6; u_lo := 1; u_hi := 0; u_body := [9] |}, [], [(6, [9])]).
 Proof. vm_compute; reflexivity. Qed.
+Example c10_rpc_example :
+  let ok := fun b => negb (match b with [255] => true | _ => false end) in
+  ref_rpc ok [0; 0; 0; 16; 2; 0; 0; 16; 8; 2; 1; 0; 0; 16; 255; 2; 0; 0; 16; 8; 1] = ([(2, [8; 2])], true) /\
+  feed (p_recv ok) p_init [[0; 0; 0]; [16; 2; 0; 0; 16; 8]; [2; 1; 0; 0; 16; 255; 2; 0; 0; 16; 8; 1]] =
+    Done {| p_hdr := []; p_exp := 0; p_rbody := [255]; p_cur := 1; p_closed := true |} [(2, [8; 2])].
+Proof. split; vm_compute; reflexivity. Qed.
